@@ -14,7 +14,6 @@ import (
 	"github.com/prometheus/prometheus/model/histogram"
 	"github.com/prometheus/prometheus/model/labels"
 	"github.com/prometheus/prometheus/promql"
-	"github.com/prometheus/prometheus/promql/parser"
 	"github.com/prometheus/prometheus/storage"
 	"github.com/prometheus/prometheus/tsdb/chunkenc"
 	"github.com/prometheus/prometheus/tsdb/chunks"
@@ -646,120 +645,21 @@ func c44E2E(c *hlib.Ctx, ns int, query string, series []memSeries) string {
 	} else {
 		_, why = sameMatrix(want, got)
 	}
-	c.Violation(c44Diagnose(series, want, ns, query), fmt.Sprintf("query %q sharded %d ways (%s %v): %s", query, ns, mode, an.ShardingLabels(), why))
+	class := c44Diagnose(series, want, ns, query, an)
+	c.Count("differs:" + class)
+	// hlib keeps 200 violations per run; the known class is hit hundreds of times in the thorough tier, so it is reported
+	// 40 times per run (all hits are counted above) to leave room for any other class
+	if class == "metric-name-not-tracked" {
+		c44NameHits++
+		if c44NameHits > 40 {
+			return "differs"
+		}
+	}
+	c.Violation(class, fmt.Sprintf("query %q sharded %d ways (%s %v): %s", query, ns, mode, an.ShardingLabels(), why))
 	return "differs"
 }
 
-// c44Analysis re-implements the analyzer's walk on the parsed query with two optional corrections, to name the cause of
-// a wrong sharded result: nameFix = an aggregation "without (…)" (and histogram_quantile's "le") also excludes __name__,
-// as the engine drops the metric name there; cvFix = the label written by count_values is a dynamic label.
-func c44Analysis(query string, nameFix, cvFix bool) (labelsOut []string, by, shardable bool) {
-	expr, err := extpromql.ParseExpr(query)
-	if err != nil {
-		return nil, false, false
-	}
-	var cur []string
-	curSet, curBy, ok := false, false, true
-	set := func(xs []string) map[string]bool {
-		m := map[string]bool{}
-		for _, x := range xs {
-			m[x] = true
-		}
-		return m
-	}
-	keys := func(m map[string]bool) []string {
-		out := make([]string, 0, len(m))
-		for k := range m {
-			out = append(out, k)
-		}
-		sort.Strings(out)
-		return out
-	}
-	scope := func(ls []string, by bool) {
-		switch {
-		case !curSet:
-			cur, curBy, curSet = keys(set(ls)), by, true
-		case curBy && by:
-			b := set(ls)
-			m := map[string]bool{}
-			for _, x := range cur {
-				if b[x] {
-					m[x] = true
-				}
-			}
-			cur = keys(m)
-		case !curBy && !by:
-			m := set(cur)
-			for _, x := range ls {
-				m[x] = true
-			}
-			cur = keys(m)
-		default:
-			lb, lw := cur, ls
-			if !curBy {
-				lb, lw = ls, cur
-			}
-			w := set(lw)
-			m := map[string]bool{}
-			for _, x := range lb {
-				if !w[x] {
-					m[x] = true
-				}
-			}
-			cur, curBy = keys(m), true
-		}
-	}
-	var dyn []string
-	parser.Inspect(expr, func(node parser.Node, _ []parser.Node) error {
-		if !ok {
-			return nil
-		}
-		switch n := node.(type) {
-		case *parser.Call:
-			switch n.Func.Name {
-			case "label_join", "label_replace":
-				if sl, isS := n.Args[1].(*parser.StringLiteral); isS {
-					dyn = append(dyn, sl.Val)
-				}
-			case "absent_over_time", "absent", "scalar":
-				ok = false
-			case "histogram_quantile":
-				if nameFix {
-					scope([]string{"le", labels.MetricName}, false)
-				} else {
-					scope([]string{"le"}, false)
-				}
-			}
-		case *parser.BinaryExpr:
-			if n.VectorMatching != nil {
-				ls := append([]string(nil), n.VectorMatching.MatchingLabels...)
-				if !n.VectorMatching.On {
-					ls = append(ls, labels.MetricName)
-				}
-				scope(ls, n.VectorMatching.On)
-			}
-		case *parser.AggregateExpr:
-			ls := append([]string(nil), n.Grouping...)
-			if n.Without && nameFix {
-				ls = append(ls, labels.MetricName)
-			}
-			scope(ls, !n.Without)
-			if cvFix && n.Op == parser.COUNT_VALUES {
-				if sl, isS := n.Param.(*parser.StringLiteral); isS {
-					dyn = append(dyn, sl.Val)
-				}
-			}
-		}
-		return nil
-	})
-	if !ok {
-		return nil, false, false
-	}
-	if len(dyn) > 0 {
-		scope(dyn, false)
-	}
-	return cur, curBy, len(cur) > 0
-}
+var c44NameHits int
 
 // c44Manual shards by the given labels and merges with the real MergeResponse.
 func c44Manual(series []memSeries, query string, ns int, by bool, ls []string) ([]queryrange.SampleStream, error) {
@@ -783,11 +683,8 @@ func c44Manual(series []memSeries, query string, ns int, by bool, ls []string) (
 // not among "by" labels and is among "without" labels (the hypothesis NameSafe of the Lean theorem C44_sound).  If the
 // analysis of this query is not name-safe and the name-safe variant of its labels shards exactly (or not at all), the class
 // is metric-name-not-tracked.
-func c44Diagnose(series []memSeries, want []queryrange.SampleStream, ns int, query string) string {
-	ls, by, sh := c44Analysis(query, false, false)
-	if !sh {
-		return "sharded-result-differs"
-	}
+func c44Diagnose(series []memSeries, want []queryrange.SampleStream, ns int, query string, an querysharding.QueryAnalysis) string {
+	ls, by := an.ShardingLabels(), an.ShardBy()
 	hasName := false
 	var safe []string
 	for _, l := range ls {
